@@ -103,7 +103,11 @@ func c11KRun(c *vcore.Ctx) *vcore.Violation {
 	c.Event("cancel@" + instant)
 	rv := newRvPipes()
 	defer rv.closeAll()
-	ctx, cancel := context.WithCancel(context.Background())
+	asDeadline := src.Bool(1, 3, "ends_as_deadline")
+	if asDeadline {
+		c.Event("deadline_ctx")
+	}
+	ctx, cancel := newEndableCtx(asDeadline)
 	defer cancel()
 	script := procTreeScript(c, kind != "ptrace")
 	exitCode := 1 + src.Int(200, "code")
